@@ -295,3 +295,87 @@ pub(crate) fn take_stub<A: AcceptableMasterList>(b: &mut Bmca<A>) -> Option<Best
     kani::assume(age >= Duration::ZERO);
     Some(BestAnnounceMessage { header: m.header, message: m, age, identity: b.own_port_identity })
 }
+
+// ================================================================================================
+// C06 at Bmca level: what one BMCA run takes from a port's foreign-master list and what it leaves.
+// ================================================================================================
+fn take_best_case(n: usize, cs: [usize; 2]) {
+    use crate::bmc::foreign_master::verif_fm::{any_list, dur, own_identity, record_is, ti_one_second};
+    let own = own_identity();
+    let (l, m) = any_list(own, n, cs);
+    let mut b = Bmca::new(crate::bmc::acceptable_master::AcceptAnyMaster, ti_one_second(), own);
+    b.foreign_master_list = l;
+    let best = b.take_best_port_announce_message();
+    let q = [n > 0 && cs[0] == 2, n > 1 && cs[1] == 2];
+    assert!(best.is_some() == (q[0] || q[1]), "C06: Erbest exists iff some master has two Announces inside the window");
+    let mut chosen = 2usize;
+    if let Some(x) = &best {
+        let pn = x.header.source_port_identity.port_number;
+        assert!(pn == 1 || pn == 2);
+        chosen = (pn - 1) as usize;
+        assert!(q[chosen], "C06: Erbest taken from a master with a single Announce");
+        assert!(x.header.sequence_id == m.seq[chosen][1] && x.age == dur(m.age[chosen][1]) && x.identity == own, "C06: Erbest must be the master's most recent Announce with its age");
+    }
+    assert!(fm_len(&b) == n, "C06: a BMCA run must not add or remove records");
+    let mut i = 0;
+    while i < 2 {
+        if i < n {
+            if i == chosen {
+                assert!(record_is(&b.foreign_master_list, i, 1 + i as u16, 2, m.seq[i], m.age[i]), "C06: the record of Erbest must be restored (message re-registered with its age)");
+            } else {
+                assert!(record_is(&b.foreign_master_list, i, 1 + i as u16, 1, m.seq[i], m.age[i]), "C06: a BMCA run leaves other masters exactly their older message");
+            }
+        }
+        i += 1;
+    }
+    kani::cover!(n < 2 || (q[0] && q[1]), "two qualified masters compete (two-record shapes)");
+    kani::cover!(n > 0 && !q[0] && !q[1], "no master qualified");
+    core::mem::forget(best);
+    core::mem::forget(b);
+}
+
+// @harness c06_bmca_take_best_n01
+// @props C06 C03
+// @tier quick
+// @variant lists2_rv
+// @stubbing yes
+// @timeout 1800
+// @mem 16
+// @functions Bmca::take_best_port_announce_message, Bmca::find_best_announce_message, BestAnnounceMessage::compare, Bmca::reregister_announce_message, ForeignMasterList::take_qualified_announce_messages, ForeignMasterList::register_announce_message, ForeignMaster::register_announce_message
+// @bounds one take_best_port_announce_message() of a stand-alone Bmca (accept-any master list) whose list is in an arbitrary state satisfying the invariant (the 3 shapes with at most one record of 1..=2 messages, any ages in [0, window), any sequence ids; concrete Announce payloads, masters differ in port number only); capacities scaled 8 -> 2
+// @assume arrayvec::ArrayVec::retain (textually, variant _rv) and ArrayVec::remove (#[kani::stub]) replaced by element-wise equivalents for at most two elements (retain2, remove2)
+// @note consumption half of C06: the port's Erbest exists iff some master has at least two Announces inside the window - never on the strength of a single message; it is that master's most recent Announce with its age; the run restores the record of Erbest and leaves every other master exactly its older message (a competing master needs a further Announce to qualify again)
+#[kani::proof]
+#[kani::unwind(9)]
+#[kani::stub(arrayvec::ArrayVec::remove, crate::bmc::foreign_master::verif_fm::remove2)]
+fn c06_bmca_take_best_n01() {
+    use crate::bmc::foreign_master::verif_fm::SHAPES;
+    let mut k = 0;
+    while k < 3 {
+        take_best_case(SHAPES[k].0, SHAPES[k].1);
+        k += 1;
+    }
+}
+
+// @harness c06_bmca_take_best_n2
+// @props C06 C03
+// @tier quick
+// @variant lists2_rv
+// @stubbing yes
+// @timeout 1800
+// @mem 16
+// @functions Bmca::take_best_port_announce_message, Bmca::find_best_announce_message, BestAnnounceMessage::compare, Bmca::reregister_announce_message, ForeignMasterList::take_qualified_announce_messages, ForeignMasterList::register_announce_message, ForeignMaster::register_announce_message
+// @bounds one take_best_port_announce_message() of a stand-alone Bmca (accept-any master list) whose list is in an arbitrary state satisfying the invariant (the 4 shapes with two records of 1..=2 messages, any ages in [0, window), any sequence ids; concrete Announce payloads, masters differ in port number only); capacities scaled 8 -> 2
+// @assume arrayvec::ArrayVec::retain (textually, variant _rv) and ArrayVec::remove (#[kani::stub]) replaced by element-wise equivalents for at most two elements (retain2, remove2)
+// @note consumption half of C06: the port's Erbest exists iff some master has at least two Announces inside the window - never on the strength of a single message; it is that master's most recent Announce with its age; the run restores the record of Erbest and leaves every other master exactly its older message (a competing master needs a further Announce to qualify again)
+#[kani::proof]
+#[kani::unwind(9)]
+#[kani::stub(arrayvec::ArrayVec::remove, crate::bmc::foreign_master::verif_fm::remove2)]
+fn c06_bmca_take_best_n2() {
+    use crate::bmc::foreign_master::verif_fm::SHAPES;
+    let mut k = 3;
+    while k < 7 {
+        take_best_case(SHAPES[k].0, SHAPES[k].1);
+        k += 1;
+    }
+}
